@@ -22,6 +22,7 @@ CONSTANTS
   AllTargets,       \* cases: TRUE = every other index is a target of the index mutations
   MCScn,            \* store: "correct" | "byz"
   SeqNs,            \* seqs: how many honest shreds precede the special shred
+  SeqFs,            \* seqs: positions of the relay-made shred
   SeqOrders         \* seqs: which index orders
 
 VARIABLE st
@@ -260,8 +261,8 @@ ConflictPairs == {<<S(5, 0, FALSE, "A"), S(5, 0, FALSE, "B")>>, <<S(5, 0, FALSE,
 RelayKinds == {"tag", "sig-bytes", "sig-key", "tag+sig-bytes", "payload", "islast", "index"}
 
 Seqs ==
-  {SeqCorrect(m, f, n, o, TRUE) : m \in RelayKinds, f \in {3, Data + 8}, n \in SeqNs, o \in SeqOrders}
-  \cup {SeqCorrect("tag", f, n, o, FALSE) : f \in {3, Data + 8}, n \in SeqNs, o \in SeqOrders}
+  {SeqCorrect(m, f, n, o, TRUE) : m \in RelayKinds, f \in SeqFs, n \in SeqNs, o \in SeqOrders}
+  \cup {SeqCorrect("tag", f, n, o, FALSE) : f \in SeqFs, n \in SeqNs, o \in SeqOrders}
   \cup {SeqByz(pr[1], pr[2], n, o, uc) : pr \in ConflictPairs, n \in (SeqNs \cup {Data, Data + 1}) \ {0}, o \in SeqOrders, uc \in BOOLEAN}
   \cup {SeqByz2(o, uc) : o \in SeqOrders, uc \in BOOLEAN}
 
